@@ -444,6 +444,24 @@ impl Mut {
         }
     }
 
+    /// C08 from the mutator side: the object in root `r` was possibly allocated a moment ago.
+    #[cfg(feature = "f_vo")]
+    fn op_probe_lookups(&mut self, r: usize) {
+        let w = world();
+        let sh = w.shadow.lock().unwrap();
+        let id = sh.roots[self.idx][r];
+        if id == 0 {
+            return;
+        }
+        let o = sh.objs[&id].clone();
+        drop(sh);
+        let mut t = crate::c08::Tally::default();
+        crate::c08::probe_object(&o, &mut self.rng, &mut t);
+        crate::c08::record(&t, false, "mutator");
+    }
+    #[cfg(not(feature = "f_vo"))]
+    fn op_probe_lookups(&mut self, _r: usize) {}
+
     fn random_shape(&mut self) -> (usize, usize, u8, u8, u8, u8, u8) {
         // (size, nrefs, sem, kind, flags, align_log, offset)
         let w = world();
@@ -1034,7 +1052,11 @@ impl Mut {
                 }
                 810..=859 => {
                     let r = self.pick_root();
-                    self.verify_root(r);
+                    if cfg.lookups && x < 830 {
+                        self.op_probe_lookups(r);
+                    } else {
+                        self.verify_root(r);
+                    }
                 }
                 860..=879 => {
                     if !cfg.off("arraycopy") {
